@@ -709,7 +709,19 @@ class Gen:
                 found = [(n, fs) for n, fs in unit_f.variants(self) if re.sub(r'(?<!^)([A-Z])', r'_\1', n).lower() == key]
                 if len(found) != 1:
                     raise LostAnchor('no Instr variant for builder method ' + f.name)
+                # a positional client: the generated method is ALSO called with plain positional arguments in the declaration order of
+                # the variant's fields, so that a method whose parameter LIST is permuted (fields of equal type) fails, although its
+                # body -- which binds by name -- still looks right
+                vname, vfields = found[0]
+                cargs = ['a%d: %s' % (k, ft) for k, (_fn, ft) in enumerate(vfields)]
+                cpass = ['a%d' % k for k in range(len(vfields))]
+                is_at = f.name.endswith('_at')
+                client_contract = contract.replace('$BVARIANT { $BFIELDS }', '%s { %s }' % (vname, ', '.join('%s: a%d' % (fn, k) for k, (fn, _) in enumerate(vfields)))).replace('$BVARIANT', vname)
+                client = 'pub fn positional_client__%s(&mut self, %s) -> (r: &mut Self)\n%s\n{ self.%s(%s) }' % (
+                    f.name, ', '.join((['position: usize'] if is_at else []) + cargs), client_contract, f.name, ', '.join((['position'] if is_at else []) + cpass))
                 contract = contract.replace('$BVARIANT', found[0][0]).replace('$BFIELDS', ', '.join(fn for fn, _ in found[0][1]))
+            else:
+                client = None
             skipbody = 'skipbody' in attrs
             attrs = [a for a in attrs if a != 'skipbody']
             if mode == 'bodies' and (f.body_open is None or skipbody):
@@ -749,6 +761,8 @@ class Gen:
             self.emit_segs(self.body_with_insertions(src, f.body_open, f.end, {}, [], rel), rel)
             if pats:
                 self.emit('}', 'spec', specfile, specline, False)
+            if client:
+                self.emit(client, 'spec', specfile, specline, False)
             self.end_block(c_lo, c_hi, twin_ok=False)
 
     def variant_of_hook(self, method):
